@@ -286,10 +286,11 @@ def check_anam(ctx, py, im, mo, site):
         if iv is None: site.spec.append(('AnamHermite:rawToTransformValue-undefined', 'rawToTransformValue(%s) undefined' % float(z))); return
         noise = 1e-12 * nb * (sabs + abs(float(z)))
         if core:
+            ctx.dist('anam_query_inverted')
             if float(unq(marg)) <= 10 * noise or abs(float(ym)) >= 10.0 - 1e-6 or abs(float(iv)) >= 10.0 - 1e-6:
                 # a decision closer to its threshold than the round-off of the double evaluation, or the scan at its last step
                 # (100 * 0.1 accumulated in binary64 is below 10, exactly it is above): excluded
-                site.tie = getattr(site, 'tie', 0) + 1; continue
+                site.tie = getattr(site, 'tie', 0) + 1; ctx.dist('anam_query_tie'); continue
             if br != []:
                 a, b, za, zb = [float(unq(x)) for x in br]
                 toly = 1e-9 + (b - a) * 4 * noise / max(zb - za, 1e-300) if zb - za > 1e-10 else 1e-9 + (b - a)
@@ -363,8 +364,10 @@ def gen_ns(ctx, rng, quick):
     elif w < .8: wt = [Fraction(rng.randint(1, 16), 4) for _ in range(n)]
     elif w < .93: wt = [Fraction(rng.randint(0, 3)) for _ in range(n)]
     else: wt = [Fraction(rng.randint(-1, 4)) for _ in range(n)]
+    sel = [int(rng.random() < .75) for _ in range(n)] if rng.random() < .35 else []
     ctx.dist('ns_' + dist); ctx.dist('ns_weights' if wt else 'ns_noweights')
-    return {'data': data, 'wt': wt}, [3, [dy(x) for x in data], [dy(x) for x in wt]]
+    if sel: ctx.dist('ns_selection')
+    return {'data': data, 'wt': wt, 'sel': sel}, [3, [dy(x) for x in data], [dy(x) for x in wt], sel]
 
 def check_ns(ctx, py, im, mo, site):
     data, wt = py['data'], py['wt']
@@ -383,6 +386,18 @@ def check_ns(ctx, py, im, mo, site):
         if not ok:
             site.spec.append(('normalScore:rank', 'sample %d (value %s): impl score %.9g i.e. cdf %.9g, rank probability of the stable (value, position) order %.9g' % (i, fl(data[i]), float(s), Phi(float(s)), p)))
             return
+    # Db level with a selection: the scores of the active samples are those of the active samples alone
+    sel = py.get('sel') or []
+    if sel and len(im) > 2:
+        rc, col, ref = im[2], vd(im[3]), vd(im[4])
+        if len(ref) == len(data):          # the vector-level call accepted the weights
+            if rc != 0 or len(col) != len(data):
+                site.spec.append(('normalScore:db-fails', 'AAnam::normalScore returns %d' % rc)); return
+            for i in range(len(data)):
+                if sel[i] and (col[i] is None) != (ref[i] is None) or (sel[i] and ref[i] is not None and abs(float(col[i]) - float(ref[i])) > 1e-9):
+                    site.spec.append(('normalScore:db-selection', 'active sample %d: AAnam::normalScore gives %s, the normal score among the active samples is %s '
+                                      '(masked samples take part in the ranking: _ZToYByNormalScore reads the column without the selection)' % (i, fl(col[i]), fl(ref[i]))))
+                    return
     # order preservation on impl
     d = [(data[i], i, float(scores[i])) for i in range(len(data)) if data[i] is not None]
     d.sort()
@@ -480,6 +495,21 @@ def check_rot(ctx, py, im, mo, site):
         for a, b in zip(b_i, v):
             if abs(float(a) - float(b)) > 1e-12 * sc: site.spec.append(('Rotation:direct-inverse-roundtrip', 'v = %s, back = %s' % ([float(x) for x in v], [float(x) for x in b_i]))); return
 
+# ----------------------------------------------------------------------------- kind 6: hermiteCondExpElement under AddressSanitizer
+def gen_condexp(ctx, rng, quick):
+    nb = rng.choice([1, 1, 2, 3, 4, 8])
+    y = Fraction(rng.randint(-96, 96), 32)
+    psi = [Fraction(rng.randint(-40, 40), 8) for _ in range(nb)]
+    ctx.dist('condexp_nb%d' % nb)
+    return {'nb': nb, 'y': y, 'psi': psi}, [6, dy(y), dy(0), [dy(x) for x in psi]]
+
+def condexp_model_case(py, im):
+    c = py['case']
+    return [6, c[1], c[3], [dy(math.sqrt(k)) for k in range(len(c[3]))]]
+
+def check_condexp(ctx, py, im, mo, site):
+    site.close('hermiteCondExpElement(%s, 0, %d coefficients)' % (float(py['y']), py['nb']), undy(im[0]), unq(mo[0]), 1e-12, sum(abs(float(x)) for x in py['psi']) * 50 + 1)
+
 # ----------------------------------------------------------------------------- driver
 def run(ctx):
     quick = ctx.quick()
@@ -497,17 +527,39 @@ def run(ctx):
     for g, cnt in gens:
         for _ in range(cnt):
             py, case = g(ctx, rng, quick); py['kind'] = case[0]; py['case'] = case; pys.append(py)
-    cf = write_cases(ctx, 'impl', [p['case'] for p in pys])
-    rc, impl = run_impl(ctx, exe, cf)
+    impl, logs = run_resilient(ctx, exe, 'impl', [p['case'] for p in pys])
+    # a few cases with very short expansions run under AddressSanitizer (the model is total: any report is a disagreement)
+    build_lib(ctx, 'asan')
+    exe_asan = build_harness(ctx, 'C18', flavor='asan')
+    if exe_asan is None:
+        print('ERROR: ASan harness does not build'); sys.exit(3)
+    pys_asan = []
+    for _ in range(24 if quick else 200):
+        py, case = gen_condexp(ctx, rng, quick); py['kind'] = case[0]; py['case'] = case; py['asan'] = True; pys_asan.append(py)
+    impl_a, logs_a = run_resilient(ctx, exe_asan, 'asan', [p['case'] for p in pys_asan], env={'ASAN_OPTIONS': 'detect_leaks=0:abort_on_error=0'})
+    pys = pys + pys_asan; impl = impl + impl_a; logs = logs + logs_a
     found_input = False
     mcases = []; mref = []
     for i, py in enumerate(pys):
-        if i >= len(impl) or (impl[i] and impl[i][0] == -997):
-            ctx.violation('crash:kind%d' % py['kind'], 'harness crashed / threw on case %d' % i, {'impl_case': sx_str(py['case'])}); found_input = True
-            if i >= len(impl): break
+        if impl[i] is None or (impl[i] and impl[i][0] == -997):
+            log = logs[i] or ''
+            m = re.search(r'AddressSanitizer: ([a-z-]+).*?\n(?:.*\n)*?\s+#0 \S+ in (\w+)', log)
+            if py.get('asan') and m:
+                key = 'asan:%s:%s:%d-coefficient-expansion' % (m.group(2), m.group(1), py['nb'])
+                text = 'AddressSanitizer %s in %s: hermiteCondExpElement(y, 0, psi) with %d coefficient(s)' % (m.group(1), m.group(2), py['nb'])
+            else:
+                key = 'crash:%s' % KIND_NAME[py['kind']]; text = 'harness crashed / threw on a %s case: %s' % (KIND_NAME[py['kind']], log[-300:])
+            ctx.violation(key, text, {'impl_case': sx_str(py['case']), 'log': log[-1500:]}); found_input = True
             continue
         mc = MODEL_CASE[py['kind']](py, impl[i])
-        if mc is None: continue
+        if mc is None:
+            # the fit was refused: legitimate only for degenerate data (fewer than two distinct active values)
+            vals = set(x for k, x in enumerate(py.get('data', [])) if x is not None and (not py.get('sel') or py['sel'][k]))
+            if py['kind'] in (2, 4) and py.get('mode', 0) == 0 and len(vals) >= 2:
+                ctx.violation('%s:fit-fails' % KIND_NAME[py['kind']], 'fit returns %s on %d distinct active values' % (impl[i][0], len(vals)), {'impl_case': sx_str(py['case'])}); found_input = True
+            else:
+                ctx.cov['tie_excluded'] += 1; ctx.count(None, False); ctx.dist('fit_refused_degenerate')
+            continue
         mcases.append(mc); mref.append((py, impl[i]))
     mf = write_cases(ctx, 'model', mcases)
     rcm, model = run_model(ctx, runner, mf)
@@ -545,15 +597,30 @@ def run(ctx):
                        'the moment functional E[x^2k] = (2k-1)!!, E[x^2k+1] = 0 is integration against the standard Gaussian density (cited, not proved)',
                        'round-off tolerance 1e-10 x conditioning for PCA/MAF; 1e-12 relative for Hermite polynomials; 1e-9 for anamorphosis values']
 
+def run_resilient(ctx, exe, name, cases, env=None):
+    """run the harness; a crash loses only the crashing case (the run is resumed after it). Returns (results | None, log | None) per case"""
+    res = [None] * len(cases); logs = [None] * len(cases)
+    start = 0
+    for attempt in range(12):
+        if start >= len(cases): break
+        cf = write_cases(ctx, '%s%d' % (name, attempt), cases[start:])
+        rc, out = run_impl(ctx, exe, cf, env=env)
+        for k, r in enumerate(out): res[start + k] = r
+        if len(out) >= len(cases) - start: break
+        try: logs[start + len(out)] = open(cf + '.impl.log', errors='replace').read()[-6000:]
+        except OSError: logs[start + len(out)] = ''
+        start += len(out) + 1
+    return res, logs
+
 def load_corpus(ctx):
     p = os.path.join(VERIF, 'corpus', ctx.pid + '.sx')
     if not os.path.exists(p): return []
     return [sx_parse(l) for l in open(p) if l.strip() and not l.startswith('#')]
 
-KIND_NAME = {0: 'PCA', 1: 'hermitePolynomials', 2: 'AnamHermite', 3: 'normalScore', 4: 'AnamEmpirical', 5: 'Rotation'}
+KIND_NAME = {0: 'PCA', 1: 'hermitePolynomials', 2: 'AnamHermite', 3: 'normalScore', 4: 'AnamEmpirical', 5: 'Rotation', 6: 'hermiteCondExpElement'}
 MODEL_CASE = {0: lambda py, im: pca_model_case_any(py, im), 1: hermite_model_case, 2: anam_model_case,
-              3: lambda py, im: py['case'], 4: emp_model_case, 5: rot_model_case}
-CHECK = {0: check_pca, 1: check_hermite, 2: check_anam, 3: check_ns, 4: check_emp, 5: check_rot}
+              3: lambda py, im: py['case'][:3], 4: emp_model_case, 5: rot_model_case, 6: condexp_model_case}
+CHECK = {0: check_pca, 1: check_hermite, 2: check_anam, 3: check_ns, 4: check_emp, 5: check_rot, 6: check_condexp}
 
 def pca_model_case_any(py, im):
     if 'mode' not in py:    # corpus line
